@@ -26,7 +26,7 @@ import (
 func init() {
 	Registry["C10"] = RunC10
 	Metas["C10"] = Meta{
-		Rule: "episode = real http1.HostClient (MaxConns 1..4, wait-for-connection off/short/long, MaxIdleConnDuration, MaxConnDuration, read/request/dial timeouts, response streaming, retry config) driven by 2..6 caller tasks x 1..5 calls (GET/POST/PUT, byte or stream bodies, Do/DoTimeout/DoDeadline, contexts cancelled before/during) against a scripted server; per-exchange fault drawn from {ok keep-alive, ok+Connection: close, FIN before first byte, FIN mid-header, FIN mid-body, RST mid-response, stall past the read timeout, trickle around the deadline} plus idle FIN/RST on pooled connections, dial error/stall/timeout, server restart; every pool lock boundary (verifhook.Yield), every connection read/write/dial is a scheduler decision; fake clock. Non-trivial: >= 2 callers overlapped inside the pool (two tasks parked at pool yield sites at the same step) or a fault fired inside an exchange; distinct = abstract signature (sequence of yield sites by task role + fault kinds + pool-state tuples).",
+		Rule: "episode = real http1.HostClient (MaxConns 1..4, wait-for-connection off/short/long, MaxIdleConnDuration, MaxConnDuration, read/request/dial timeouts, response streaming, retry config) driven by 2..6 caller tasks x 1..5 calls (GET/POST/PUT, byte or stream bodies, Do/DoTimeout/DoDeadline, contexts cancelled before/during) against a scripted server; per-exchange fault drawn from {ok keep-alive, ok+Connection: close, FIN before first byte, FIN mid-header, FIN mid-body, RST mid-response, stall past the read timeout, trickle around the deadline} plus idle FIN/RST on pooled connections, dial error/stall/timeout, server restart, a bystander calling CloseIdleConnections while connections sit in the pool; responses with Content-Length: 0 among the others; every pool lock boundary (verifhook.Yield), every connection read/write/dial is a scheduler decision; fake clock. Non-trivial: >= 2 callers overlapped inside the pool (two tasks parked at pool yield sites at the same step) or a fault fired inside an exchange; distinct = abstract signature (sequence of yield sites by task role + fault kinds + pool-state tuples).",
 		Real: []string{"http1.HostClient: Do/doNonNilReqResp/acquireConn/queueForIdle/releaseConn/closeConn/decConnsCount/dialConnFor/wantConn/connsCleaner/CloseIdleConnections", "req.Write, resp.ReadHeaders/ReadRespBody/ReadRespBodyStream, clientRespStream", "standard.Conn", "timer pool, context deadlines (fake clock)"},
 		Stub: []string{"TCP + dial (SimConn, SimDialer)", "server (scripted actor)", "clock (synctest)"},
 		Assumptions: []string{
@@ -34,7 +34,7 @@ func init() {
 			"the call-duration bound is computed on the fake clock from the configuration: attempts x (connection wait + dial timeout + max(request timeout, read timeout)) + retry delays + 1ms",
 			"a queue entry of a waiter that already gave up is not counted as a queued waiter (the queue is cleaned lazily)",
 		},
-		RequiredProbes: []string{"yield:acquireConn", "yield:releaseConn", "yield:closeConn", "yield:decConnsCount", "yield:queueForIdle", "yield:dialConnFor", "yield:dialConnFor.deliver", "yield:wantConn.cancel", "yield:acquireConn.woken", "yield:acquireConn.timeout", "yield:connsCleaner.scan", "waiter-delivered-by-release", "waiter-delivered-by-dial", "bad-pool-conn-retry", "cleaner-closed", "stream-release", "fault:stall", "fault:fin-mid-body", "fault:idle-fin", "fault:ctx-cancel", "dial-error", "reaped"},
+		RequiredProbes: []string{"yield:acquireConn", "yield:releaseConn", "yield:closeConn", "yield:decConnsCount", "yield:queueForIdle", "yield:dialConnFor", "yield:dialConnFor.deliver", "yield:wantConn.cancel", "yield:acquireConn.woken", "yield:acquireConn.timeout", "yield:connsCleaner.scan", "waiter-delivered-by-release", "waiter-delivered-by-dial", "bad-pool-conn-retry", "cleaner-closed", "stream-release", "fault:stall", "fault:fin-mid-body", "fault:idle-fin", "fault:ctx-cancel", "dial-error", "reaped", "empty-response", "close-idle-connections"},
 	}
 }
 
@@ -47,6 +47,7 @@ type c10call struct {
 	start     time.Time
 	end       time.Time
 	returned  bool
+	emptyResp bool // the exchange that answered this call carried Content-Length: 0
 	err       error
 	cancelled bool
 	status    int
@@ -193,8 +194,11 @@ func RunC10(ep *core.Episode) {
 	}
 
 	// ---- scripted server ----
-	respFor := func(id string, closeHdr bool) []byte {
+	respFor := func(id string, closeHdr, empty bool) []byte {
 		body := "resp-for-" + id + "-" + strings.Repeat("x", 20+len(id)*7)
+		if empty {
+			body = "" // an explicit Content-Length: 0 on a status that may carry a body
+		}
 		m := &wire.Msg{Proto: "HTTP/1.1", Status: 200, Reason: "OK", Headers: []wire.Header{{K: "X-Req-Id", V: id}}, Body: []byte(body)}
 		if closeHdr {
 			m.Headers = append(m.Headers, wire.Header{K: "Connection", V: "close"})
@@ -292,7 +296,14 @@ func RunC10(ep *core.Episode) {
 					}
 					kind := tp.Weighted("xfault", w)
 					closeHdr := kind == 1 || (m.Proto == "HTTP/1.1" && hasClose(m))
-					full := respFor(id, kind == 1)
+					empty := tp.Chance("emptyresp", 1, 5)
+					if cl != nil {
+						cl.emptyResp = empty
+					}
+					if empty {
+						ep.Probe("empty-response")
+					}
+					full := respFor(id, kind == 1, empty)
 					hdrEnd := bytes.Index(full, []byte("\r\n\r\n")) + 4
 					ep.Logf("  server k%d: request %s (%s), fault kind %d", p.ID, id, m.Method, kind)
 					switch kind {
@@ -472,6 +483,9 @@ func RunC10(ep *core.Episode) {
 					cl.status = resp.StatusCode()
 					// the response is the response to this caller's request
 					want := "resp-for-" + cl.id + "-" + strings.Repeat("x", 20+len(cl.id)*7)
+					if cl.emptyResp {
+						want = ""
+					}
 					var body []byte
 					var rerr error
 					if resp.IsBodyStream() {
@@ -628,6 +642,30 @@ func RunC10(ep *core.Episode) {
 	S.MaxSteps = 6000
 	S.Horizon = 30 * time.Second
 
+	// CloseIdleConnections called by a bystander at moments the scheduler picks while connections are idle in the pool
+	var closer *core.Task
+	closerAbort := false
+	if tp.Chance("closer", 1, 3) {
+		nclose := 1 + tp.Choose("nclose", 2)
+		closer = S.Go("closer", func() {
+			for k := 0; k < nclose && !closerAbort; k++ {
+				S.Block(closer, "closer.wait")
+				if closerAbort {
+					return
+				}
+				hc.CloseIdleConnections()
+				ep.Fault("close-idle-connections")
+			}
+		})
+		S.AddSource(core.SourceFunc(func(add func(core.Event)) {
+			if closer.Done || closer.Site() != "closer.wait" || closerAbort {
+				return
+			}
+			if st := hc.ConnPoolState(); st.PoolConnNum >= 1 && inProgress > 0 {
+				add(core.Event{Key: "closer-go", Weight: 2, Apply: func() { S.Release(closer) }})
+			}
+		}))
+	}
 	allDone := func() bool {
 		for _, t := range tasks {
 			if !t.Done {
@@ -637,6 +675,15 @@ func RunC10(ep *core.Episode) {
 		return true
 	}
 	res := S.Run(allDone)
+	if closer != nil && res == core.RunDone {
+		// the bystander ends with the callers (a call it already began runs to its end)
+		closerAbort = true
+		if closer.Site() == "closer.wait" {
+			S.Release(closer)
+		}
+		res = S.Run(func() bool { return closer.Done })
+		tasks = append(tasks, closer)
+	}
 	for _, t := range tasks {
 		if t.Panic != nil {
 			if PanicInHertz(t.Stack) {
